@@ -1561,6 +1561,11 @@ class ClassicChannel(utils.EventEmitter):
         )
         self._abort_connection_result()
         self._change_state(self.State.CLOSED)
+        if self.disconnection_result:
+            # Disconnection collision: our own disconnect() is done too
+            if not self.disconnection_result.done():
+                self.disconnection_result.set_result(None)
+            self.disconnection_result = None
         self.emit(self.EVENT_CLOSE)
         self.manager.on_channel_closed(self)
 
